@@ -29,7 +29,7 @@ def check_single(case, ctx):
         for j, (p, pr) in enumerate(zip(t, tr)):
             prior = p[1]
             s = pr[1]
-            if not (isinstance(s, float) and math.isfinite(s)):
+            if not (isinstance(s, (int, float)) and not isinstance(s, bool) and math.isfinite(s)):
                 raise Violation("sigma-nonfinite", f"{cfg['kind']} player {i},{j}: posterior sigma {s!r}")
             if not s > 0.0:
                 raise Violation("sigma-nonpositive", f"{cfg['kind']} player {i},{j}: posterior sigma {s!r} (prior {prior!r})")
@@ -105,7 +105,7 @@ class League:
                 self.games[i] += 1
                 self.bound_sq[i] += tau * tau
                 s = r.sigma
-                if not (isinstance(s, float) and math.isfinite(s) and math.isfinite(r.mu)):
+                if not (isinstance(s, (int, float)) and not isinstance(s, bool) and math.isfinite(s) and math.isfinite(r.mu)):
                     raise Violation("history:nonfinite", f"{self.cfg['kind']} game {self.n_games} player {i}: mu={r.mu!r} sigma={s!r}")
                 if not s > 0:
                     raise Violation("history:sigma-nonpositive", f"{self.cfg['kind']} game {self.n_games} player {i}: sigma={s!r}")
